@@ -157,6 +157,12 @@ class CFG:
                 return ("m", True) if any(k is not None for k in v.keys) else NN
             if isinstance(v, (ast.ListComp, ast.SetComp, ast.DictComp, ast.GeneratorExp, ast.Lambda)):
                 return NN
+            # the result of instantiating a class (a call of a CapWords name: Decimal(x), HttpResponse(), bytes()...) is an
+            # object, never None; its truth value is not known
+            if isinstance(v, ast.Call):
+                fn_ = v.func.attr if isinstance(v.func, ast.Attribute) else v.func.id if isinstance(v.func, ast.Name) else ""
+                if fn_[:1].isupper() and not fn_.isupper() or fn_ in ("bytes", "bytearray", "str", "int", "float", "list", "dict", "set", "tuple", "frozenset", "len", "bool"):
+                    return NN
             return TOP
 
         def decide(val, test: ast.expr):
